@@ -76,12 +76,18 @@ Lemma gen_classes_expected :
                  "CovReg1D"; "CovPenta"; "CovWendland0"; "CovWendland1"; "CovWendland2"]%string.
 Proof. reflexivity. Qed.
 
-(* every structure but J-Bessel passes every check of the reference table *)
-Lemma table_ok_strict e : In e cov_table -> ce_name e <> "J-Bessel"%string -> failures e = [].
+(* every structure of the factory passes every check of the reference table *)
+Lemma table_ok_strict e : In e cov_table -> failures e = [].
 Proof.
-  intros He Hn. destruct (failures e) as [|c r] eqn:E; [reflexivity|]. exfalso.
+  intro He. destruct (failures e) as [|c r] eqn:E; [reflexivity|]. exfalso.
   assert (Hc : In c (failures e)) by (rewrite E; left; reflexivity).
-  pose proof (table_entry_ok e He c Hc) as H. cbn in H. destruct H as [H|[]]. apply Hn. congruence.
+  exact (table_entry_ok e He c Hc).
+Qed.
+(* the J-Bessel family keeps its parameter above (ndim - 2)/2 (column regenerated from CovBesselJ::getParMin) *)
+Lemma besselj_param_bound e : In e cov_table -> ce_name e = "J-Bessel"%string -> ce_parmin_dim e = true.
+Proof.
+  intros He Hn. unfold cov_table in He. cbn [In] in He.
+  repeat (destruct He as [<-|He]; [first [reflexivity|cbn in Hn; discriminate Hn]|]). contradiction.
 Qed.
 (* the factory refuses a structure outside its dimension of validity and only offers structures usable in the space *)
 Lemma factory_guard_generated : factory_guards_dimension = true /\ factory_checks_space = true.
